@@ -1,7 +1,7 @@
 (* C09 - property theorems only.  "reachable progs orc s" = s is the state after SOME
    schedule (any list of thread choices, any length) from the initial state in which
    poster i is asked to post progs[i] and the cost check answers orc. *)
-From Cell2V Require Import Common.Tac Common.ListX C09.Model C09.Spec C09.Proofs.
+From Cell2V Require Import Common.Tac Common.ListX C09.Model C09.Spec C09.Proofs C09.Drain.
 From Cell2V Require C09ring.Model C09ring.Spec C09ring.Proofs.
 
 (* the inductive invariant (counter/queue accounting, pause accounting, run accounting, the
@@ -66,6 +66,30 @@ Theorem C09_quiescent_drained : forall progs orc s, reachable progs orc s -> qui
 Proof. exact quiescent_drained. Qed.
 Print Assumptions C09_quiescent_drained.
 
+(* never stalls (progress): from ANY reachable state in which the posters have finished
+   posting, the pause goroutines have finished and the cost check asks for no further pause,
+   the consumer thread alone - wherever it is: idle with an activation queued, inside run(),
+   in the after-run tail, inside schedule() - reaches after finitely many of its own steps
+   a state in which nobody can step; by C09_quiescent_drained everything posted has then
+   been handed over.  No further post is needed to wake the mailbox. *)
+Theorem C09_consumer_drains : forall progs orc s, reachable progs orc s -> others_done s ->
+  exists n, quiescent (run_sched s (repeat TConsumer n)) /\
+            reachable progs orc (run_sched s (repeat TConsumer n)).
+Proof. exact consumer_drains. Qed.
+Print Assumptions C09_consumer_drains.
+
+Corollary C09_everything_delivered : forall progs orc s, reachable progs orc s -> others_done s ->
+  exists n, let s' := run_sched s (repeat TConsumer n) in
+    sq s' = [] /\ running s' = false /\
+    forall i, (i < length progs)%nat ->
+      projS (Z.of_nat i) (poppedS s') = syssOf (nth i progs []) /\
+      (suspended s' = false -> projU (Z.of_nat i) (deliveredU s') = usersOf (nth i progs [])).
+Proof.
+  intros progs orc s R O. destruct (consumer_drains progs orc s R O) as [n [Q R']].
+  exists n. cbv zeta. destruct (quiescent_drained _ _ _ R' Q) as [A [B [_ [_ E]]]]. auto.
+Qed.
+Print Assumptions C09_everything_delivered.
+
 (* the queue abstractions used above are justified by the refinement theorems of C09ring:
    the goring ring buffer (growth at every capacity) is a FIFO list; the two-step mpsc push
    is what the model's (owner, msg, linked) chain is *)
@@ -85,4 +109,14 @@ Example C09_example_quiescent :
   deliveredU s = [(0, 1); (0, 2); (1, 3)] /\ invokedS s = [(1, SOther 9)] /\ pauses s = [TDone]
   /\ forallb (fun t => match tstep s t with None => true | Some _ => false end)
              [TPoster 0; TPoster 1; TConsumer; TPause 0] = true.
+Proof. vm_compute. repeat split. Qed.
+
+(* the hypothesis of C09_consumer_drains is met in the middle of an execution: both posters
+   have finished, a user message is still queued and the consumer is in the middle of run() *)
+Example C09_example_others_done :
+  let s := run_sched (init [[PUser 1]; [PUser 2]] [])
+             ([TPoster 0; TPoster 0; TPoster 0; TPoster 0; TPoster 0] ++ repeat TConsumer 8 ++
+              [TPoster 1; TPoster 1; TPoster 1; TPoster 1]) in
+  cpc_ s = CR4 /\ uq s = [(1, 2)] /\ deliveredU s = [(0, 1)] /\
+  forallb (fun p => match ppc_ p, pprog p with PReady, [] => true | _, _ => false end) (posters s) = true.
 Proof. vm_compute. repeat split. Qed.
